@@ -33,6 +33,23 @@ Theorem C31_local_copy_kept_partial : forall (nsof : N -> N) (fx : bool) (ops : 
 Proof. exact safety_partial_explicit. Qed.
 Print Assumptions C31_local_copy_kept_partial.
 
+(* EVENTUAL, PARTIAL.  Under the same conditions, from the state reached by any history, every
+   acknowledged upload is already in its backend, or there is an enabled continuation (restart,
+   the stored row handed to the executor once, backend up) that respects the conditions and puts
+   it there: the local copy and the row are still available whatever outages, failed executions,
+   deletion attempts and restarts happened before.  MISSING: that the real scheduler takes such a
+   continuation - the retry manager's liveness (C30_until_success_partial; fairness of poller and
+   workers is not formalised) and a backend that is eventually up. *)
+Theorem C31_eventual_partial : forall (nsof : N -> N) (fx : bool) (ops : list op) k,
+  nice nsof fx init ops = true ->
+  kmem k (s_acked (fst (run fx init ops))) = true ->
+  kmem k (s_back (fst (run fx init ops))) = true \/
+  exists more, nice nsof fx (fst (run fx init ops)) more = true /\
+               legal (snd (run fx (fst (run fx init ops)) more)) = true /\
+               kmem k (s_back (fst (run fx (fst (run fx init ops)) more))) = true.
+Proof. exact eventual_partial. Qed.
+Print Assumptions C31_eventual_partial.
+
 (* REFUTED as stated (open finding C31-persist-flag-shared): two namespaces upload the same digest;
    the first write-back clears the single persist flag, a cleanup pass deletes the blob, the second
    namespace's write-back finds no file and is dropped.  Every step is enabled; in the end (1,0) is
